@@ -5,19 +5,15 @@
    open_registry() reads that file; a fresh instance of class k is set from the cache". *)
 From Coq Require Import List NArith ZArith.
 Import ListNotations.
-Require Import Base.Wire Base.PyStr C15.Model C15.Lemmas C15.Names C15.Codec C15.File C15.Tree C15.Final.
+Require Import Base.Wire Base.PyStr C15.Model C15.Lemmas C15.Names C15.Codec C15.Split C15.File C15.Tree C15.Final C15.Atomic.
+Require Import gen.T15.
 
-(* ---- names.  Full statement: forall ns <> [], split (join ns) = ns.  The pinned code
-   violates it when a name other than the last ends with a backslash. *)
-Theorem C15_name_roundtrip_on_domain :
-  forall ns, names_dom ns = true -> split (join_names ns) = Ok ns.
-Proof. exact name_roundtrip_on_domain. Qed.
-Print Assumptions C15_name_roundtrip_on_domain.
-
-Theorem C15_name_roundtrip_refuted :
-  exists ns, names_dom ns = false /\ ns <> [] /\ split (join_names ns) <> Ok ns.
-Proof. exact split_join_refuted. Qed.
-Print Assumptions C15_name_roundtrip_refuted.
+(* ---- names: split inverts join for every non-empty list of names (full statement since the
+   repair of F26; the empty list is not a name: join [] = "" splits into [""]). *)
+Theorem C15_name_roundtrip :
+  forall ns, ns <> [] -> Forall (fun n => vstr n = true) ns -> split (join_names ns) = Ok ns.
+Proof. exact name_roundtrip. Qed.
+Print Assumptions C15_name_roundtrip.
 
 (* ---- the unicode_escape codec used for every value and name: decode (encode s) = s *)
 Theorem C15_codec_roundtrip : forall s, vstr s = true -> udec (uesc s) = Ok s.
@@ -71,20 +67,30 @@ Theorem C15_integer_rejects_below :
 Proof. exact int_rejects_below. Qed.
 Print Assumptions C15_integer_rejects_below.
 
-(* ---- space separated lists: whatever .set(s) stored is reproduced by its own __str__ / set
-   (class level; the file layer is C15_file_transparent) *)
-Theorem C15_spacelist_roundtrip_partial :
-  forall s cur oks, forallb (fun b : bool => b) oks = true ->
-  exists l, set_text (KSpaceList false) cur oks s = Ok (PL l) /\
-            set_text (KSpaceList false) cur oks (str_of (KSpaceList false) (PL l)) = Ok (PL l).
-Proof. exact spacelist_roundtrip. Qed.
-Print Assumptions C15_spacelist_roundtrip_partial.
+(* ---- space separated lists of strings.  tok_ok t = t is non-empty and has no blank.
+   (1) exactly the lists of such elements are reproduced by their own __str__ / set;
+   (2) whatever .set(text) stores is such a list, and (3) it survives save/reload of the file. *)
+Theorem C15_spacelist_roundtrip_iff :
+  forall l cur oks, forallb (fun b : bool => b) oks = true ->
+  (set_text (KSpaceList false) cur oks (str_of (KSpaceList false) (PL l)) = Ok (PL l) <-> forallb tok_ok l = true).
+Proof. exact spacelist_roundtrip_iff. Qed.
+Print Assumptions C15_spacelist_roundtrip_iff.
 
-Theorem C15_spacelist_setvalue_refuted :
-  exists l, forallb tok_ok l = false /\
-    set_text (KSpaceList false) (PL []) [] (str_of (KSpaceList false) (PL l)) <> Ok (PL l).
-Proof. exact spacelist_setvalue_refuted. Qed.
-Print Assumptions C15_spacelist_setvalue_refuted.
+Theorem C15_spacelist_roundtrip :
+  forall name fresh cur oks s,
+  name_ok name = true -> forallb (fun b : bool => b) oks = true -> vstr s = true ->
+  exists l, set_text (KSpaceList false) cur oks s = Ok (PL l) /\
+            reload name (KSpaceList false) fresh oks (PL l) = Ok (PL l).
+Proof. exact spacelist_set_reload. Qed.
+Print Assumptions C15_spacelist_roundtrip.
+
+Theorem C15_spacelist_reload_on_domain :
+  forall name fresh oks l,
+  name_ok name = true -> forallb (fun b : bool => b) oks = true ->
+  forallb tok_ok l = true -> forallb vstr l = true ->
+  reload name (KSpaceList false) fresh oks (PL l) = Ok (PL l).
+Proof. exact spacelist_reload. Qed.
+Print Assumptions C15_spacelist_reload_on_domain.
 
 (* ---- the Value tree: specific values and rejected sets, for any value type.
    [resolve] is the readable rule: net+chan setting, else net setting, else chan setting, else general.
@@ -130,10 +136,49 @@ Theorem C15_integer_values_safe : forall lo dflt z, int_accepts lo z = true -> s
 Proof. exact integer_value_safe. Qed.
 Print Assumptions C15_integer_values_safe.
 
-(* ... and is needed in general (an abstract value type whose str()/set() changes the value) *)
-Theorem C15_specific_unsafe_refuted :
-  exists (t : tree nat) (s : spec nat) (c : str),
-    Inv nat (fun v => Ok v) t s /\
-    snd (step nat (fun v => Ok (S v)) (fun _ _ => Ok 7%nat) t (OGet (AC c))) <> Ok (resolve nat s (AC c)).
-Proof. exact tree_unsafe_refuted. Qed.
-Print Assumptions C15_specific_unsafe_refuted.
+Theorem C15_spacelist_values_safe_iff : forall dflt l,
+  safe pv (k_reparse (KSpaceList false) dflt) (PL l) <-> forallb tok_ok l = true.
+Proof. exact spacelist_value_safe_iff. Qed.
+Print Assumptions C15_spacelist_values_safe_iff.
+
+(* ... and it is exact: for ANY value type, a general value that str()/set() does not reproduce
+   already breaks getSpecific for a channel never seen before *)
+Theorem C15_specific_safe_necessary :
+  forall (V : Type) (reparse : V -> res V) (settext : V -> str -> res V) (v : V) (c : str),
+  reparse v <> Ok v ->
+  snd (step V reparse settext (mktree V v [] []) (OGet (AC c))) <> Ok (resolve V (mkspec V v [] [] []) (AC c)).
+Proof. exact specific_safe_necessary. Qed.
+Print Assumptions C15_specific_safe_necessary.
+
+(* ---- bad values are rejected atomically, for EVERY class of the regenerated inventory.
+   ATOMIC_TABLE (regenerated from src/registry.py and src/conf.py) holds, per class, the resolved
+   bodies of set() and setValue() inlined along the MRO as programs over
+   check / error / assign(self.value) / seq / if / try.  [exec p o false] runs p from "nothing assigned"
+   with the list o deciding every check, side effect and branch; it returns (assigned?, raised?).
+   However those behave: if the call raises, self.value (hence what serialize() would save, and the
+   children that inherit it) has not been assigned. *)
+Theorem C15_reject_atomic_all_classes :
+  forall name, In name INVENTORY ->
+  exists pset psetvalue, In (name, pset, psetvalue) ATOMIC_TABLE /\
+  forall o,
+    (snd (fst (exec pset o false)) = true -> fst (fst (exec pset o false)) = false) /\
+    (snd (fst (exec psetvalue o false)) = true -> fst (fst (exec psetvalue o false)) = false).
+Proof. exact reject_atomic_all_classes. Qed.
+Print Assumptions C15_reject_atomic_all_classes.
+
+Theorem C15_atomic_table_covers_inventory : map (fun e => fst (fst e)) ATOMIC_TABLE = INVENTORY.
+Proof. exact table_covers_inventory. Qed.
+Print Assumptions C15_atomic_table_covers_inventory.
+
+(* generic: any program the checker accepts is atomic under every behaviour of its checks *)
+Theorem C15_atomic_sound : forall p, atomic p = true ->
+  forall o, snd (fst (exec p o false)) = true -> fst (fst (exec p o false)) = false.
+Proof. exact atomic_sound. Qed.
+Print Assumptions C15_atomic_sound.
+
+(* the ordering the inventory must not contain (C15.F25 before its repair): store, then something that may raise *)
+Theorem C15_store_then_effect_refuted :
+  atomic (SSeq (SSeq SCheck (SIf SError SSkip)) (SSeq SAssign SCheck)) = false /\
+  exists o, fst (exec (SSeq (SSeq SCheck (SIf SError SSkip)) (SSeq SAssign SCheck)) o false) = (true, true).
+Proof. exact store_then_effect_not_atomic. Qed.
+Print Assumptions C15_store_then_effect_refuted.
